@@ -114,3 +114,16 @@ META["C15"]["text"] += " Paths include escapes that a re-encoding would change (
 META["C18"]["text"] += " A third of the admin cases starts after the caches have been dropped and re-created under the same names by two reloads."
 META["C19"]["text"] += " TestC19Alarm runs the real binary with --alarm pointing at receivers that hang, are slow, answer or refuse, under pike's own periodic checker."
 META["C20"]["text"] += " Some keys (one of the hot ones) become cacheable only after two answers, while conditional requests keep arriving."
+# round 8
+META["C02"]["text"] += " The client of an in-flight exchange (the fetcher, a pass) may go away too; its exchange ends with context.Canceled and everybody waiting behind it must be released."
+META["C05"]["text"] += " Each case ends with conditional requests (If-None-Match, If-Modified-Since) for the cached and the pass-through key: 304 only for a 2xx answer with a matching validator, everything else unaltered."
+META["C07"]["text"] += " TestC07Burst (real transport): bursts of 40-130 concurrent passes on 1-3 hit-for-pass keys (or POST) against an origin that answers once the whole burst is inside it; nobody may be queued inside pike."
+META["C08"]["text"] += " A kill may be followed by a start while the store directories are still held by another process (the instance must start and serve without persistence); a request that fails without overlapping a stop is a violation."
+META["C11"]["text"] += " TestC11Reload drives up to three caches that are removed (singly, several in one reload) and re-created with other sizes."
+META["C12"]["text"] += " A third of the encoder cases set the levels the way a running instance receives them: an existing profile updated by a second Reset."
+META["C13"]["text"] += " A third of the table's cells serve the response after it went through its persisted form."
+META["C16"]["text"] += " Memory-only caches have sizes 1000, 1001, 1023, 4100 or 5000 (sizes the shards do not divide evenly; all large enough for the probes of a case not to evict the retained entry)."
+META["C17"]["text"] += " Half of the accepted configurations are saved a second time, half of those after the stored configuration was replaced behind pike's back; Read must return what the last successful Write saved."
+META["C18"]["text"] += " A quarter of the admin cases use a store whose write takes 40 ms and fill a key, purge it straight away and ask again once the write must have landed."
+META["C19"]["text"] += " A quarter of the events are single requests that fail in the proxy (the server resets the connection while answering) followed by a phase judged without a forced health check."
+META["C20"]["text"] += " The reloads of the stress change the definition of the upstream in use (health check with a 15 ms answer, policy) every second time."
